@@ -308,7 +308,7 @@ var c17MessageWords = func() map[string]bool {
 		enough too many have want len stack sym offset endoffset with for on at by a an the than after before found assignment
 		mismatch struct interface map chan const var range select switch case default go defer import fallthrough goto continue
 		break if else nil true false lexer parser token stream listener node rule state action symbol next input source ok err
-		label defined redeclared block this other see previous declaration statement expression operator newline comma`) {
+		label defined redeclared duplicate key literal block this other see previous declaration statement expression operator newline comma`) {
 		m[w] = true
 	}
 	return m
